@@ -210,8 +210,8 @@ func (ctl *Control) Start() {
 		RunID:   ctl.runID,
 		Error:   "",
 	}
-	_ = msg.WriteMsg(ctl.conn, loginRespMsg)
 	verifhook.At("ctl.start", "ctl", verifhook.ID(ctl), "run_id", ctl.runID)
+	_ = msg.WriteMsg(ctl.conn, loginRespMsg)
 
 	go func() {
 		for i := 0; i < ctl.poolCount; i++ {
